@@ -3526,6 +3526,7 @@ def deltify_pack_objects(
     *,
     window_size: int | None = None,
     progress: Callable[..., None] | None = None,
+    object_format: "ObjectFormat | None" = None,
 ) -> Iterator[UnpackedObject]:
     """Generate deltas for pack objects.
 
@@ -3549,6 +3550,7 @@ def deltify_pack_objects(
         sorted_objs,
         window_size=window_size,
         progress=progress,
+        object_format=object_format,
     )
 
 
@@ -3587,6 +3589,7 @@ def deltas_from_sorted_objects(
     objects: Iterator[tuple[ShaFile, bytes | None]],
     window_size: int | None = None,
     progress: Callable[..., None] | None = None,
+    object_format: "ObjectFormat | None" = None,
 ) -> Iterator[UnpackedObject]:
     """Create deltas from sorted objects.
 
@@ -3608,6 +3611,7 @@ def deltas_from_sorted_objects(
             progress((f"generating deltas: {i}\r").encode())
         raw = o.as_raw_chunks()
         raw_bytes = b"".join(raw)  # Join once for efficiency
+        oid = _pack_object_id(o, object_format)
         winner = raw
         winner_len = sum(map(len, winner))
         winner_base = None
@@ -3627,12 +3631,12 @@ def deltas_from_sorted_objects(
                 winner_len = sum(map(len, winner))
         yield UnpackedObject(
             o.type_num,
-            sha=o.sha().digest(),
+            sha=oid,
             delta_base=winner_base,
             decomp_len=winner_len,
             decomp_chunks=winner,
         )
-        possible_bases.appendleft((o.sha().digest(), o.type_num, raw_bytes))
+        possible_bases.appendleft((oid, o.type_num, raw_bytes))
         while len(possible_bases) > window_size:
             possible_bases.pop()
 
@@ -3646,6 +3650,7 @@ def pack_objects_to_data(
     delta_window_size: int | None = None,
     ofs_delta: bool = True,
     progress: Callable[..., None] | None = None,
+    object_format: "ObjectFormat | None" = None,
 ) -> tuple[int, Iterator[UnpackedObject]]:
     """Create pack data from objects.
 
@@ -3655,6 +3660,8 @@ def pack_objects_to_data(
       delta_window_size: Delta window size
       ofs_delta: Whether to use offset deltas
       progress: Optional progress reporting callback
+      object_format: Hash algorithm the objects are named with in the pack
+        (None: the SHA-1 name, as before)
     Returns: Tuples with (type_num, hexdigest, delta base, object chunks)
     """
     count = len(objects)
@@ -3670,6 +3677,7 @@ def pack_objects_to_data(
                 iter(objects),  # type: ignore
                 window_size=delta_window_size,
                 progress=progress,
+                object_format=object_format,
             ),
         )
     else:
@@ -3677,9 +3685,9 @@ def pack_objects_to_data(
         def iter_without_path() -> Iterator[UnpackedObject]:
             for o in objects:
                 if isinstance(o, tuple):
-                    yield full_unpacked_object(o[0])
+                    yield full_unpacked_object(o[0], object_format)
                 else:
-                    yield full_unpacked_object(o)
+                    yield full_unpacked_object(o, object_format)
 
         return (count, iter_without_path())
 
@@ -3713,22 +3721,37 @@ def generate_unpacked_objects(
         objects_to_delta = container.iterobjects_subset(
             todo.keys(), allow_missing=False
         )
-        sorted_objs = sort_objects_for_delta((o, todo[o.id]) for o in objects_to_delta)
+        object_format = container.object_format
+        sorted_objs = sort_objects_for_delta(
+            (o, todo[ObjectID(o.get_id(object_format))]) for o in objects_to_delta
+        )
         yield from deltas_from_sorted_objects(
             sorted_objs,
             window_size=delta_window_size,
             progress=progress,
+            object_format=object_format,
         )
     else:
         for oid in todo:
             yield full_unpacked_object(container[oid])
 
 
-def full_unpacked_object(o: ShaFile) -> UnpackedObject:
+def _pack_object_id(o: ShaFile, object_format: "ObjectFormat | None") -> bytes:
+    """Binary name of an object in a pack of the given object format."""
+    if object_format is None or object_format.oid_length == 20:
+        return o.sha().digest()
+    return o.sha(object_format).digest()
+
+
+def full_unpacked_object(
+    o: ShaFile, object_format: "ObjectFormat | None" = None
+) -> UnpackedObject:
     """Create an UnpackedObject from a ShaFile.
 
     Args:
       o: ShaFile object to convert
+      object_format: Hash algorithm the object is named with in the pack
+        (None: the SHA-1 name, as before)
 
     Returns:
       UnpackedObject with full object data
@@ -3738,7 +3761,7 @@ def full_unpacked_object(o: ShaFile) -> UnpackedObject:
         delta_base=None,
         crc32=None,
         decomp_chunks=o.as_raw_chunks(),
-        sha=o.sha().digest(),
+        sha=_pack_object_id(o, object_format),
     )
 
 
@@ -3811,7 +3834,12 @@ def write_pack_objects(
       compression_level: the zlib compression level to use
     Returns: Dict mapping id -> (offset, crc32 checksum), pack checksum
     """
-    pack_contents_count, pack_contents = pack_objects_to_data(objects, deltify=deltify)
+    pack_contents_count, pack_contents = pack_objects_to_data(
+        objects,
+        deltify=deltify,
+        delta_window_size=delta_window_size,
+        object_format=object_format,
+    )
 
     return write_pack_data(
         write,
